@@ -49,6 +49,12 @@ pub struct Qcow2Dev<T> {
     need_flush: AtomicBool,
     flush_lock: AsyncMutex<()>,
 
+    // Serializes everything that writes refblock slices back. A slice is
+    // marked clean when its write-back starts, so without this a second
+    // flusher would take "nothing dirty" for "refcounts are durable" while
+    // the first one's write or fsync is still in flight.
+    refcount_flush_lock: AsyncMutex<()>,
+
     file: T,
     backing_file: Option<Box<Qcow2Dev<T>>>,
     pub info: Qcow2Info,
@@ -109,6 +115,7 @@ impl<T: Qcow2IoOps> Qcow2Dev<T> {
             new_cluster: AsyncRwLock::new(Default::default()),
             need_flush: AtomicBool::new(false),
             flush_lock: AsyncMutex::new(()),
+            refcount_flush_lock: AsyncMutex::new(()),
         };
 
         Ok(dev)
